@@ -286,6 +286,38 @@ def regexp_MatchString (pat s : List UInt8) : Bool :=
     else regexpUnsupported pat s
   | _ => regexpUnsupported pat s
 
+/-! ## bytes, bufio.Reader
+
+A `*bufio.Reader` over a source that delivers `input` and then ends cleanly is the
+bytes it has not handed out yet; reading returns what Go returns together with the
+reader's new state. (Buffer sizes do not show: `ReadBytes` grows its result as needed;
+`Peek(n)` for `n` beyond the buffer size is not used by the translated code.) -/
+
+def bytes_Equal (a b : List UInt8) : Bool := a == b
+
+/-- the end of the input: `io.EOF` -/
+def ioEOF : Option Err := some ⟨"io.EOF", 0, []⟩
+
+/-- split after the first `delim` -/
+def cutAfter (delim : UInt8) : List UInt8 → Option (List UInt8 × List UInt8)
+  | [] => none
+  | c :: cs =>
+    if c = delim then some ([c], cs)
+    else match cutAfter delim cs with
+      | some (l, r) => some (c :: l, r)
+      | none => none
+
+/-- `rd.ReadBytes(delim)` / `rd.ReadString(delim)`: (data including the delimiter, nil, rest), or
+    (all that was left, io.EOF, nothing) when the delimiter never comes -/
+def bufio_ReadBytes (rd : List UInt8) (delim : UInt8) : List UInt8 × Option Err × List UInt8 :=
+  match cutAfter delim rd with
+  | some (l, r) => (l, none, r)
+  | none => (rd, ioEOF, [])
+
+/-- `rd.Peek(n)`: the next `n` bytes without consuming them, or what is left and io.EOF -/
+def bufio_Peek (rd : List UInt8) (n : Int) : List UInt8 × Option Err :=
+  if n.toNat ≤ rd.length then (rd.take n.toNat, none) else (rd, ioEOF)
+
 /-! ## io.LimitReader, bufio.Scanner (default split function ScanLines, default buffer)
 
 A source of bytes (`io.Reader`) is the byte string it delivers before a clean
